@@ -6,6 +6,25 @@ use std::fs::{File, OpenOptions};
 use std::io::{Read, Seek, SeekFrom, Write};
 use std::path::{Path, PathBuf};
 
+#[cfg(luqing_studio_nervusdb_verif)]
+use nervusdb_api::verif_hooks as vh;
+
+#[cfg(luqing_studio_nervusdb_verif)]
+thread_local! {
+    static VERIF_TMP_PATH: std::cell::RefCell<Option<PathBuf>> = const { std::cell::RefCell::new(None) };
+}
+
+#[cfg(luqing_studio_nervusdb_verif)]
+impl WalRecord {
+    pub fn verif_encode_body(&self) -> Result<Vec<u8>> {
+        self.encode_body()
+    }
+
+    pub fn verif_decode_body(body: &[u8]) -> Result<Self> {
+        Self::decode_body(body)
+    }
+}
+
 #[derive(Debug, Clone, PartialEq)]
 pub enum WalRecord {
     BeginTx {
@@ -478,6 +497,10 @@ pub struct Wal {
 impl Wal {
     pub fn open(path: impl AsRef<Path>) -> Result<Self> {
         let path = path.as_ref().to_path_buf();
+        #[cfg(luqing_studio_nervusdb_verif)]
+        if !path.exists() {
+            vh::io(vh::IoKind::Create, &path, None, 0, &[])?;
+        }
         let file = OpenOptions::new()
             .read(true)
             .write(true)
@@ -505,8 +528,14 @@ impl Wal {
 
         let offset = file.metadata()?.len();
         file.seek(SeekFrom::End(0))?;
+        #[cfg(luqing_studio_nervusdb_verif)]
+        vh::io(vh::IoKind::Write, &self.path, None, offset, &len.to_le_bytes())?;
         file.write_all(&len.to_le_bytes())?;
+        #[cfg(luqing_studio_nervusdb_verif)]
+        vh::io(vh::IoKind::Write, &self.path, None, offset + 4, &crc.to_le_bytes())?;
         file.write_all(&crc.to_le_bytes())?;
+        #[cfg(luqing_studio_nervusdb_verif)]
+        vh::io(vh::IoKind::Write, &self.path, None, offset + 8, &body)?;
         file.write_all(&body)?;
         file.flush()?;
         Ok(offset)
@@ -516,6 +545,8 @@ impl Wal {
         let Some(file) = self.file.as_mut() else {
             return Err(Error::WalProtocol("wal file is closed"));
         };
+        #[cfg(luqing_studio_nervusdb_verif)]
+        vh::io(vh::IoKind::Sync, &self.path, None, 0, &[])?;
         file.sync_data()?;
         Ok(())
     }
@@ -530,6 +561,11 @@ impl Wal {
         };
 
         {
+            #[cfg(luqing_studio_nervusdb_verif)]
+            {
+                vh::io(vh::IoKind::Create, &tmp, None, 0, &[])?;
+                VERIF_TMP_PATH.with(|p| *p.borrow_mut() = Some(tmp.clone()));
+            }
             let mut tmp_file = OpenOptions::new()
                 .write(true)
                 .create_new(true)
@@ -541,6 +577,16 @@ impl Wal {
                 let len =
                     u32::try_from(body.len()).map_err(|_| Error::WalRecordTooLarge(u32::MAX))?;
                 let crc = crc32(&body);
+                #[cfg(luqing_studio_nervusdb_verif)]
+                {
+                    let tmp = VERIF_TMP_PATH.with(|p| p.borrow().clone()).unwrap_or_default();
+                    let offset = file.stream_position()?;
+                    let mut whole = Vec::with_capacity(8 + body.len());
+                    whole.extend_from_slice(&len.to_le_bytes());
+                    whole.extend_from_slice(&crc.to_le_bytes());
+                    whole.extend_from_slice(&body);
+                    vh::io(vh::IoKind::Write, &tmp, None, offset, &whole)?;
+                }
                 file.write_all(&len.to_le_bytes())?;
                 file.write_all(&crc.to_le_bytes())?;
                 file.write_all(&body)?;
@@ -553,8 +599,13 @@ impl Wal {
             }
             append_to(&mut tmp_file, &WalRecord::CommitTx { txid })?;
             tmp_file.flush()?;
+            #[cfg(luqing_studio_nervusdb_verif)]
+            vh::io(vh::IoKind::Sync, &tmp, None, 0, &[])?;
             tmp_file.sync_data()?;
         }
+
+        #[cfg(luqing_studio_nervusdb_verif)]
+        vh::io(vh::IoKind::Rename, &tmp, Some(&self.path), 0, &[])?;
 
         // Best-effort replace (POSIX: rename overwrites; Windows: needs remove first).
         if std::fs::rename(&tmp, &self.path).is_err() {
